@@ -82,7 +82,16 @@ def r07_3(ctx):
                     through.add(i)
         key = "%s traverses its children" % hb["name"]
         if not through:
-            r.ob(key, False, C.mloc(mb, mb), "no visit_mut_children_with(self) on the node parameter: the subtree is pruned")
+            # some other way of visiting (e.g. `for item in &mut node.body { item.visit_mut_with(self) }`) cannot be shown complete here
+            alt = [i for i, t in calls(mb) if (callee_name(t).endswith("::visit_mut_with") or callee_name(t).endswith("visit_mut_children_with")) and
+                   any(s[0] == "param" and s[1] == 2 for s in _flow(ctx, mb).op_sources(t["args"][0]))]
+            if not alt:
+                from . import c10 as _c10
+                alt = _c10._traversal_blocks(mb, ctx.facts)
+            if alt:
+                r.ob(key, None, C.mloc(mb, mb), "the node is not visited through visit_mut_children_with(self) but parts of it are visited explicitly (bb%s): completeness of that traversal is not decided" % alt)
+            else:
+                r.ob(key, False, C.mloc(mb, mb), "no visit_mut_children_with(self) on the node parameter: the subtree is pruned")
             continue
         if g.must_pass(through):
             r.ob(key, True, C.mloc(mb, mb), "children call in bb%s lies on every entry→return path" % sorted(through))
@@ -90,6 +99,11 @@ def r07_3(ctx):
             e = g.escaping_exit(through)
             r.ob(key, False, C.mloc(mb, mb["blocks"][e]["term"]), "return in bb%d is reachable without visiting the children (early exit before the traversal)" % e)
     return r
+
+
+def _flow(ctx, mb):
+    from .influence import flow_of
+    return flow_of(ctx, mb)
 
 
 def _roots_at(mb, op, local, depth=0):
